@@ -6,12 +6,14 @@ func init() {
 			PkgPath: "honnef.co/go/tools/lintcmd",
 			PkgDir:  "lintcmd",
 			PkgName: "lintcmd",
-			Files:   []string{"merge.go"},
+			Files:   []string{"merge.go", "lintfiles.go", "../C11/lintloop.go", "../C17/lintstub.go"},
 			Entries: []Entry{
 				{Fn: "Harness_C12_semantics_r2", Tiers: "both", Reach: []string{"end"}, Bounds: "2 runs, 2 problems differing in exactly one descriptor field (message|line|end|category|file|column), 2 files, unnamed builds"},
 				{Fn: "Harness_C12_semantics_named_r2", Tiers: "both", Reach: []string{"end"}, Bounds: "2 runs named linux|windows, 2 problems differing in message or end"},
 				{Fn: "Harness_C12_single_named_r3", Tiers: "both", Reach: []string{"end"}, Bounds: "3 named runs, 1 problem"},
 				{Fn: "Harness_C12_order_end_r3", Tiers: "both", Reach: []string{"end"}, Bounds: "3 unnamed runs, 2 problems differing in end only, adjacent transpositions"},
+				{Fn: "Harness_C12_order_payload_r2", Tiers: "both", Reach: []string{"end"}, Bounds: "2 runs named linux and windows reporting the same problem with symbolic severities (error, warning, ignored); both orders and a repeated run"},
+				{Fn: "Harness_C12_lint_checked_files", Tiers: "both", Reach: []string{"end"}, Bounds: "result loop of (*linter).lint with the runner stubbed: 2 results, failed / initial / skipped symbolic: checked files are those of the analysed packages; problems carry their check's merge strategy"},
 				{Fn: "Harness_C12_order_named_r3", Tiers: "thorough", Reach: []string{"end"}, Bounds: "3 named runs, 2 problems differing in end only, adjacent transpositions"},
 				{Fn: "Harness_C12_repeat_r3", Tiers: "both", Reach: []string{"end"}, Bounds: "3 named runs, 1 problem, any run repeated at any position"},
 				{Fn: "Harness_C12_semantics_r3", Tiers: "thorough", Reach: []string{"end"}, Bounds: "3 runs, 2 problems, all six variations, unnamed"},
